@@ -32,7 +32,7 @@ def run(chk, repo, tier):
     from .c14 import rescaled_copy_rule
     rescaled_copy_rule(chk, repo, 'C13-c')
     chk.clause('C13-d', 'no internal call relies on the hard-coded default wavelength unit', 5)
-    chk.clause('C13-e', 'the result is a new Spectrum; scalar/vector operands (numpy scalars included) keep the wavelength grid', 4)
+    chk.clause('C13-e', 'the result is a new Spectrum; scalar/vector operands (numpy scalars included) keep the wavelength grid', 5)
     chk.clause('C13-f', 'common grid built symmetrically; both operands sampled and filled the same way', 3)
     chk.clause('C13-g', 'operand samples are taken on the closed range of the operand; min sampling over both operands', 2)
     chk.not_decided += ['interpolated values', 'grid construction numerics']
@@ -165,6 +165,7 @@ def run(chk, repo, tier):
     keep_ok = False
     two_ok, two_seen = True, False
     value_ok, value_det = True, ''
+    scalar_conv = ''
 
     def other_is_spectrum(p):
         from ..rules import literals
@@ -198,6 +199,17 @@ def run(chk, repo, tier):
                 keep_ok = wv in (nf.attr(S('self'), 'wave'), nf.attr(S('self'), '_wave'))
                 va = b.get('value').single_atom() if isinstance(b.get('value'), Poly) else None
                 keep_ok = keep_ok and va is not None and is_app(va, 'callv')
+                if va is not None and is_app(va, 'callv') and len(va[2]) >= 3:
+                    # ... of the stored values and the operand as given: a conversion of the operand to the element type of
+                    # the spectrum truncates 0.25 to 0 for integer-valued spectra
+                    ops = va[2][1:3]
+                    mine = {nf.vkey(nf.attr(S('self'), 'value')), nf.vkey(nf.attr(S('self'), '_value'))}
+                    theirs = [x for x in ops if nf.vkey(x) not in mine]
+                    if len(theirs) == 1 and theirs[0] != S('other'):
+                        conv = [x for x in nf.value_atoms(theirs[0]) if is_app(x, ('cast', 'm:astype', 'asarray', 'array'))
+                                and any(isinstance(y, Tup) and 'dtype' in repr(y) for y in x[2]) or is_app(x, ('cast', 'm:astype'))]
+                        if conv:
+                            scalar_conv = f'the operand is converted before the operation: {fmt(theirs[0])[:100]}'
             else:
                 r = ic[0].result
                 ok_i = b.get('wave') == nf.index(r, C(0)) and ic[0].bound.get('s1') == S('self') and \
@@ -257,6 +269,8 @@ def run(chk, repo, tier):
            '__array_priority__ / __array_ufunc__ is set' if pri else 'neither __array_priority__ nor __array_ufunc__ is set: '
            'ndarray.__mul__ broadcasts over the Spectrum object and __rmul__ is never asked', cls.loc() if hasattr(cls, 'loc') else '')
     chk.ob('C13-e', 'D-flow', fu.key, 'scalar/vector operand: wavelength grid unchanged, ufunc(self.value, other)', keep_ok, '', fu.loc())
+    chk.ob('C13-e', 'T-dtype', fu.key, 'scalar/vector operand enters the operation as given (numpy promotes, nothing is truncated beforehand)',
+           not scalar_conv, scalar_conv or 'no conversion of the operand to the element type of the spectrum', fu.loc())
 
     # ---------------------------------------------------------------- C13-f
     _, paths, _ = analyse(repo, fi, types={('sym', 's1'): cls, ('sym', 's2'): cls}, unroll=True)
